@@ -485,17 +485,42 @@ func checkAccumulator(c *Ctx, addb func(rule, s string), v ssa.Value, at ssa.Ins
 		var flows []ssa.Value
 		seenPhi := map[*ssa.Phi]bool{}
 		var walk func(p *ssa.Phi)
+		var leaf func(e ssa.Value, depth int)
+		leaf = func(e ssa.Value, depth int) {
+			switch q := e.(type) {
+			case *ssa.Phi:
+				walk(q)
+			case *ssa.Parameter:
+				// the accumulator handed to a helper: what the call sites pass
+				g := q.Parent()
+				n := 0
+				if depth < 3 && inlinedEverywhere(c, g) {
+					for i, pp := range g.Params {
+						if pp != q {
+							continue
+						}
+						for _, site := range c.P.CallersOf(g) {
+							if i < len(site.Common().Args) {
+								n++
+								leaf(site.Common().Args[i], depth+1)
+							}
+						}
+					}
+				}
+				if n == 0 {
+					flows = append(flows, e)
+				}
+			default:
+				flows = append(flows, e)
+			}
+		}
 		walk = func(p *ssa.Phi) {
 			if seenPhi[p] {
 				return
 			}
 			seenPhi[p] = true
 			for _, e := range p.Edges {
-				if q, ok := e.(*ssa.Phi); ok {
-					walk(q)
-				} else {
-					flows = append(flows, e)
-				}
+				leaf(e, 0)
 			}
 		}
 		walk(ph)
